@@ -16,9 +16,14 @@ the source changes:
 
 Usage:  gen_C08_fista.py [repo] [outfile]     (defaults: $VERIF_REPO or /repo, <verif>/coq/gen/FistaGen.v)
 Returns a dict {name: (cpp_text, gallina_text)} from generate(); raises OutOfGrammar when the source region
-has left the restricted grammar (the caller then falls back to the reference kernels and says so)."""
+has left the restricted grammar (the caller then falls back to the reference kernels and says so).
+Consume-everything (translate/strict.py, DESIGN §9.4): the qub_violated lambda is exactly `real_t margin = E; return E;`, the backtracking
+loop body exactly γ update, L update, eval_prox_grad_step(*curr); eval_ψx̂(*curr); ++s.stepsize_backtracks; stepsize_changed = true;
+the momentum group three consecutive statements — any other statement there is out of grammar."""
 import os, re, sys, unicodedata
 from fractions import Fraction
+sys.path.insert(0, os.path.dirname(os.path.abspath(__file__)))
+import strict
 
 HERE = os.path.dirname(os.path.abspath(__file__))
 VERIF = os.path.dirname(HERE)
@@ -186,45 +191,68 @@ def flat(s):
     return " ".join(s.split())
 
 
+def one_match(pattern, src, what):
+    m = list(re.finditer(pattern, src, flags=re.S))
+    if len(m) != 1:
+        raise OutOfGrammar("%s: expected exactly one match, found %d" % (what, len(m)))
+    return m[0]
+
+
 def generate(repo):
+    """consume-everything (translate/strict.py): every statement of the qub_violated lambda, of the backtracking loop and of the
+    momentum / extrapolation group is either translated or one of the statements listed here, in this order"""
     path = os.path.join(repo, SRC_REL)
     src = strip_comments(open(path, encoding="utf-8").read())
     out = {}
-    # --- momentum recurrence
-    e = flat(one(r"real_t\s+t_new\s*=\s*([^;]+);", src, "t_new"))
-    out["t_next"] = (e, "(t : T) : T", tr(e, {"t": "t"}))
-    one(r"real_t\s+t_prev\s*=\s*std::exchange\(\s*t\s*,\s*t_new\s*\)\s*;", src, "t_prev = std::exchange(t, t_new)")
-    # --- extrapolation (two assignments to curr->x guarded by disable_acceleration)
-    m = one(r"if\s*\(\s*params\.disable_acceleration\s*\)\s*curr->x\s*=\s*([^;]+);\s*else\s*curr->x\s*=\s*([^;]+);", src,
-            "extrapolation if/else")
-    if flat(m[0]) != "curr->x̂":
-        raise OutOfGrammar("disable_acceleration branch is not `curr->x = curr->x̂`: %r" % m[0])
-    e = flat(m[1])
-    out["extrap1"] = (e, "(t_prev t xh xhp : T) : T",
-                      tr(e, {"t": "t", "t_prev": "t_prev", "curr->x̂": "xh", "prev_x̂": "xhp"}))
-    # --- quadratic upper bound test
-    lam = one(r"auto\s+qub_violated\s*=\s*\[this\]\s*\(const\s+Iterate\s*&i\)\s*\{(.*?)\};", src, "qub_violated lambda")
-    e = flat(one(r"real_t\s+margin\s*=\s*([^;]+);", lam, "margin"))
-    out["qub_margin"] = (e, "(psx tol : T) : T",
-                         tr(e, {"i.ψx": "psx", "params.quadratic_upperbound_tolerance_factor": "tol"}))
-    e = flat(one(r"return\s+([^;]+);", lam, "qub return"))
-    out["qub_violated"] = (e, "(psx psxh gp L pp tol : T) : bool",
-                           tr(e, {"i.ψx": "psx", "i.ψx̂": "psxh", "i.grad_ψᵀp": "gp", "i.L": "L", "i.pᵀp": "pp",
-                                  "margin": "(qub_margin psx tol)"}))
-    if not out["qub_violated"][2].startswith("(") or "<?" not in out["qub_violated"][2] and "<=?" not in out["qub_violated"][2]:
-        raise OutOfGrammar("qub_violated does not return a comparison")
-    # --- backtracking loop
-    m = one(r"while\s*\(([^{;]*?)&&\s*qub_violated\(\s*\*curr\s*\)\s*\)\s*\{(.*?)\}", src, "backtracking loop")
-    e = flat(m[0])
-    out["bt_guard"] = (e, "(L Lmax : T) : bool", tr(e, {"curr->L": "L", "params.L_max": "Lmax"}))
-    body = m[1]
-    op, e = one(r"curr->γ\s*([*/])=\s*([^;]+);", body, "γ update in loop")
-    out["bt_gamma"] = ("curr->γ %s= %s" % (op, flat(e)), "(gam : T) : T", "(gam %s %s)" % (op, tr(flat(e), {})))
-    op, e = one(r"curr->L\s*([*/])=\s*([^;]+);", body, "L update in loop")
-    out["bt_L"] = ("curr->L %s= %s" % (op, flat(e)), "(L : T) : T", "(L %s %s)" % (op, tr(flat(e), {})))
-    # the loop must recompute the step and ψ(x̂) (order is checked by the correspondence, presence here)
-    if not re.search(r"eval_prox_grad_step\(\*curr\);\s*eval_ψx̂\(\*curr\);", body):
-        raise OutOfGrammar("backtracking loop body does not recompute step and ψ(x̂)")
+    try:
+        # --- momentum recurrence and extrapolation: three consecutive statements
+        m = one_match(r"real_t\s+t_new\s*=", src, "t_new")
+        r = strict.account(strict.statements_from(src, m.start(), 3),
+                           [("t_new", r"real_t\s+t_new\s*=\s*([^;]+);", "1"),
+                            ("exchange", strict.lit("real_t t_prev = std::exchange(t, t_new);"), "1"),
+                            ("extrap", r"if\s*\(\s*params\.disable_acceleration\s*\)\s*curr->x\s*=\s*([^;]+);\s*else\s*curr->x\s*=\s*([^;]+);", "1")],
+                           "momentum / extrapolation group")
+        e = flat(r["t_new"].group(1))
+        out["t_next"] = (e, "(t : T) : T", tr(e, {"t": "t"}))
+        one(r"real_t\s+t_prev\s*=", src, "t_prev")
+        one(r"if\s*\(\s*params\.disable_acceleration\s*\)", src, "extrapolation if/else")
+        if flat(r["extrap"].group(1)) != "curr->x̂":
+            raise OutOfGrammar("disable_acceleration branch is not `curr->x = curr->x̂`: %r" % r["extrap"].group(1))
+        e = flat(r["extrap"].group(2))
+        out["extrap1"] = (e, "(t_prev t xh xhp : T) : T",
+                          tr(e, {"t": "t", "t_prev": "t_prev", "curr->x̂": "xh", "prev_x̂": "xhp"}))
+        # --- quadratic upper bound test: the lambda body is exactly `real_t margin = E; return E;`
+        lam = one(r"auto\s+qub_violated\s*=\s*\[this\]\s*\(const\s+Iterate\s*&i\)\s*\{(.*?)\};", src, "qub_violated lambda")
+        r = strict.account(strict.split_statements(lam), [("margin", r"real_t\s+margin\s*=\s*([^;]+);", "1"), ("ret", r"return\s+([^;]+);", "1")],
+                           "qub_violated lambda")
+        e = flat(r["margin"].group(1))
+        out["qub_margin"] = (e, "(psx tol : T) : T",
+                             tr(e, {"i.ψx": "psx", "params.quadratic_upperbound_tolerance_factor": "tol"}))
+        e = flat(r["ret"].group(1))
+        out["qub_violated"] = (e, "(psx psxh gp L pp tol : T) : bool",
+                               tr(e, {"i.ψx": "psx", "i.ψx̂": "psxh", "i.grad_ψᵀp": "gp", "i.L": "L", "i.pᵀp": "pp",
+                                      "margin": "(qub_margin psx tol)"}))
+        if not out["qub_violated"][2].startswith("(") or "<?" not in out["qub_violated"][2] and "<=?" not in out["qub_violated"][2]:
+            raise OutOfGrammar("qub_violated does not return a comparison")
+        # --- backtracking loop: condition `<guard> && qub_violated(*curr)`, body = these six statements in this order
+        m = one_match(r"while\s*\((?=[^{;]*qub_violated\()", src, "backtracking loop")
+        cond, body, _ = strict.control(strict.statement_at(src, m.start()), "while")
+        cm = re.fullmatch(r"(.*?)&&\s*qub_violated\(\s*\*curr\s*\)", cond)
+        if not cm:
+            raise OutOfGrammar("backtracking loop condition %r" % cond)
+        e = flat(cm.group(1))
+        out["bt_guard"] = (e, "(L Lmax : T) : bool", tr(e, {"curr->L": "L", "params.L_max": "Lmax"}))
+        r = strict.account(strict.split_statements(body),
+                           [("gamma", r"curr->γ\s*([*/])=\s*([^;]+);", "1"), ("L", r"curr->L\s*([*/])=\s*([^;]+);", "1"),
+                            ("step", strict.lit("eval_prox_grad_step(*curr);"), "1"), ("psi", strict.lit("eval_ψx̂(*curr);"), "1"),
+                            ("count", strict.lit("++s.stepsize_backtracks;"), "1"), ("flag", strict.lit("stepsize_changed = true;"), "1")],
+                           "backtracking loop body")
+        op, e = r["gamma"].group(1), r["gamma"].group(2)
+        out["bt_gamma"] = ("curr->γ %s= %s" % (op, flat(e)), "(gam : T) : T", "(gam %s %s)" % (op, tr(flat(e), {})))
+        op, e = r["L"].group(1), r["L"].group(2)
+        out["bt_L"] = ("curr->L %s= %s" % (op, flat(e)), "(L : T) : T", "(L %s %s)" % (op, tr(flat(e), {})))
+    except strict.Unaccounted as ex:
+        raise OutOfGrammar(str(ex))
     # --- initial step size
     e = flat(one(r"curr->γ\s*=\s*([^;]+);", src, "initial γ"))
     out["gamma_of_L"] = (e, "(Lgam L : T) : T", tr(e, {"params.Lipschitz.Lγ_factor": "Lgam", "curr->L": "L"}))
@@ -267,7 +295,7 @@ def render(defs, origin):
 def write(repo=None, outfile=None):
     """returns (status, detail, defs): status 'ok' | 'translator-out-of-grammar'"""
     repo = repo or os.environ.get("VERIF_REPO", "/repo")
-    outfile = outfile or os.path.join(VERIF, "coq", "gen", "FistaGen.v")
+    outfile = outfile or os.path.join(os.environ.get("VERIF_GEN_OUT") or os.path.join(VERIF, "coq", "gen"), "FistaGen.v")
     try:
         defs = generate(repo)
         status, detail = "ok", ""
